@@ -70,7 +70,8 @@ def c05_extra(run, tier, bins):
 
 PROPS = {
     "C01": {
-        "theorem_modules": ["FlacVerif.Theorems.C01", "FlacVerif.Theorems.C01Strict", "FlacVerif.Theorems.C01Wrap"],
+        "uses_gen": ["constants", "config", "headers", "writer", "verify", "coding"],
+        "theorem_modules": ["FlacVerif.Theorems.C01", "FlacVerif.Theorems.C01Strict", "FlacVerif.Theorems.C01Wrap", "FlacVerif.Theorems.C09Gen"],
         "streams": {"quick": [("stream", ["--cases", 400, "--max-samples", 6000]), ("kernel", ["--cases", 150]), ("stream", ["--cases", 24, "--max-samples", 9000, "--focus", "burst"])],
                     "thorough": [("stream", ["--cases", 2000, "--max-samples", 24000]), ("kernel", ["--cases", 3000]), ("stream", ["--cases", 333, "--max-samples", 24000, "--focus", "burst"])],
                     "search": [("stream", ["--cases", 1500, "--max-samples", 12000])]},
@@ -87,7 +88,8 @@ PROPS = {
         "trusted_base": STREAM_TRUSTED, "assumptions": [],
     },
     "C03": {
-        "theorem_modules": ["FlacVerif.Theorems.C03", "FlacVerif.Theorems.C01Strict"],
+        "uses_gen": ["constants", "source"],
+        "theorem_modules": ["FlacVerif.Theorems.C03", "FlacVerif.Theorems.C01Strict", "FlacVerif.Theorems.C14Gen"],
         "streams": {"quick": [("stream", ["--cases", 400, "--max-samples", 6000])],
                     "thorough": [("stream", ["--cases", 2000, "--max-samples", 24000])],
                     "search": [("stream", ["--cases", 1500, "--max-samples", 12000])]},
@@ -104,7 +106,8 @@ PROPS = {
         "trusted_base": STREAM_TRUSTED, "assumptions": [],
     },
     "C09": {
-        "theorem_modules": ["FlacVerif.Theorems.C09", "FlacVerif.Theorems.C09Stream"],
+        "uses_gen": ["constants", "config", "headers", "writer", "verify", "coding"],
+        "theorem_modules": ["FlacVerif.Theorems.C09", "FlacVerif.Theorems.C09Stream", "FlacVerif.Theorems.C09Gen"],
         "streams": {"quick": [("stream", ["--cases", 250, "--max-samples", 6000]), ("stream", ["--cases", 150, "--max-samples", 9000, "--focus", "loud"]), ("stream", ["--cases", 52, "--max-samples", 9000, "--focus", "threshold"])],
                     "thorough": [("stream", ["--cases", 1333, "--max-samples", 24000]), ("stream", ["--cases", 1000, "--max-samples", 24000, "--focus", "loud"]), ("stream", ["--cases", 173, "--max-samples", 24000, "--focus", "threshold"])],
                     "search": [("stream", ["--cases", 1500, "--max-samples", 9000, "--focus", "loud"])]},
@@ -172,6 +175,8 @@ PROPS.update({
         "assumptions": ["residual values inside (-2^31, 2^31), block length < 2^16", "optimality is claimed whenever the optimum is below the saturation value 2^28-1 (for an emitted residual this always holds: C13_emitted); at exactly 2^28-1 with a single partition the code can return a worse choice (C13_saturation_edge_counterexample, replayed on the real code as corpus case corpus-c13-edge) - such a residual is never emitted because it loses against verbatim"],
     },
     "C14": {
+        "uses_gen": ["constants", "source"],
+        "theorem_modules": ["FlacVerif.Theorems.C14", "FlacVerif.Theorems.C14Gen"],
         "streams": {"quick": [("kernel", ["--cases", 40]), ("stream", ["--cases", 250, "--max-samples", 5000])],
                     "thorough": [("kernel", ["--cases", 400]), ("stream", ["--cases", 1666, "--max-samples", 24000])],
                     "search": [("stream", ["--cases", 1200, "--max-samples", 9000])]},
@@ -220,6 +225,8 @@ API_RULE = ("api stream: every public entry point (StreamInfo::new / Stream::new
 
 PROPS.update({
     "C17": {
+        "uses_gen": ["constants", "source", "config", "headers", "writer", "verify", "coding"],
+        "theorem_modules": ["FlacVerif.Theorems.C17", "FlacVerif.Theorems.C14Gen", "FlacVerif.Theorems.C09Gen"],
         "streams": {"quick": [("api", [])], "thorough": [("api", ["--thorough"])], "search": [("api", ["--thorough"])]},
         "profiles": {"quick": ["release", "dev"], "thorough": ["release", "dev"]},
         "diff_prefix": ["c17."], "oracle_fields": ["o_c17"], "rule": API_RULE,
@@ -380,7 +387,7 @@ def c10_extra(run, tier, bins):
 
 PROPS.update({
     "C16": {
-        "theorem_modules": ["FlacVerif.Theorems.C16crc", "FlacVerif.Theorems.C16", "FlacVerif.Theorems.C02Gen", "FlacVerif.Theorems.C02Hdr"], "uses_gen": ["tables", "headers"],
+        "theorem_modules": ["FlacVerif.Theorems.C16crc", "FlacVerif.Theorems.C16", "FlacVerif.Theorems.C02Gen", "FlacVerif.Theorems.C02Hdr", "FlacVerif.Theorems.C15Gen"], "uses_gen": ["tables", "headers", "writer", "decode"],
         "streams": {"quick": [("parser", ["--cases", 14, "--burst-stride", 40, "--random", 1500])],
                     "thorough": [("parser", ["--cases", 30, "--burst-stride", 3, "--random", 60000])],
                     "search": [("parser", ["--cases", 30, "--burst-stride", 4, "--random", 20000])]},
@@ -402,8 +409,8 @@ CONFIG_RULE = ("config stream: corpus (F2: partitions 0 / 1000, max_order 7; F13
 
 PROPS.update({
     "C07": {
-        "driver": "fvconfig", "uses_gen": ["constants", "config"], "extra": c07_extra,
-        "theorem_modules": ["FlacVerif.Theorems.C07", "FlacVerif.Theorems.C07Total"],
+        "driver": "fvconfig", "uses_gen": ["constants", "config", "headers", "writer", "verify", "coding"], "extra": c07_extra,
+        "theorem_modules": ["FlacVerif.Theorems.C07", "FlacVerif.Theorems.C07Total", "FlacVerif.Theorems.C09Gen"],
         "streams": {"quick": [("config", ["--cases", 150])], "thorough": [("config", ["--cases", 800, "--thorough"])], "search": [("config", ["--cases", 800, "--thorough"])]},
         "profiles": {"quick": ["release", "dev"], "thorough": ["release", "dev"]},
         "diff_prefix": ["c07."], "oracle_fields": ["o_c07"], "rule": CONFIG_RULE,
@@ -440,7 +447,7 @@ PROPS.update({
         "assumptions": ["stable (fakesimd) build; the simd-nightly path of weighted_delay_prod_sum_impl splits by heap alignment (read only, noted in DESIGN.md)"],
     },
     "C15": {
-        "theorem_modules": ["FlacVerif.Theorems.C15", "FlacVerif.Theorems.C02Hdr"], "uses_gen": ["headers"],
+        "theorem_modules": ["FlacVerif.Theorems.C15", "FlacVerif.Theorems.C02Hdr", "FlacVerif.Theorems.C15Gen"], "uses_gen": ["tables", "headers", "writer", "decode"],
         "streams": {"quick": [("parser", ["--cases", 14, "--burst-stride", 64, "--random", 200]), ("stream", ["--cases", 150, "--max-samples", 5000]), ("comp", ["--cases", 100])],
                     "thorough": [("parser", ["--cases", 40, "--burst-stride", 16, "--random", 2000]), ("stream", ["--cases", 1333, "--max-samples", 24000]), ("comp", ["--cases", 3000])],
                     "search": [("stream", ["--cases", 1000, "--max-samples", 9000])]},
